@@ -2896,7 +2896,10 @@ func treasureToKeyValuePair(treasureInterface treasure.Treasure, t *hydrapb.Trea
 		modifiedBy := treasureInterface.GetModifiedBy()
 		t.UpdatedBy = &modifiedBy
 	}
-	if treasureInterface.GetExpirationTime() > 0 {
+	// ExpirationTime == 0 means "no expiry"; any other value (including instants
+	// before 1970, which are negative UnixNano values) is a real expiry that the
+	// index, IsExpired and the Shift/PatchExpired paths already honour.
+	if treasureInterface.GetExpirationTime() != 0 {
 		t.ExpiredAt = timestamppb.New(time.Unix(0, treasureInterface.GetExpirationTime()))
 	}
 
